@@ -183,15 +183,25 @@ def check_outputs(mode, src, wd, stdout):
         p = os.path.join(outdir, 'print-transaction-context', 'transaction-context.dot')
         if os.path.exists(p):
             nodes, edges = parse_dot(open(p).read())
-            from tealer.printers.transaction_context import PrinterTransactionContext
+            def decode(raw, what):
+                # own reader of the printer's short notation (`0 2 5..9`): the set of numbers it denotes
+                m = re.search(what + r':[ ]?([0-9. ]*)', raw)
+                if m is None: return None
+                out = set()
+                for tok in m.group(1).split():
+                    mm = re.fullmatch(r'(\d+)\.\.(\d+)', tok)
+                    if mm: out.update(range(int(mm.group(1)), int(mm.group(2)) + 1))
+                    elif tok.isdigit(): out.add(int(tok))
+                    else: return None
+                return out
             for i, n in nodes.items():
                 gi, gs = I['ctx'].get(i, (None, None))
                 if gi is None: continue
-                want_i = ("GroupIndex: " + PrinterTransactionContext._repr_num_list(gi)).strip()
-                want_s = ("GroupSize: " + PrinterTransactionContext._repr_num_list(gs)).strip()
                 raw = html.unescape(n['raw'])
-                if want_i not in raw or want_s not in raw:
-                    bad.append(('annotations', mode, f"node {i} does not show `{want_i}` / `{want_s}`")); break
+                got_i, got_s = decode(raw, 'GroupIndex'), decode(raw, 'GroupSize')
+                if got_i != set(gi) or got_s != set(gs):
+                    bad.append(('annotations', mode, f"node {i} shows GroupIndex {sorted(got_i) if got_i is not None else None} / GroupSize "
+                                                     f"{sorted(got_s) if got_s is not None else None}; the computed context is {sorted(gi)} / {sorted(gs)}")); break
         else:
             bad.append(('file', mode, 'transaction-context.dot not written'))
     if mode == 'print-subroutine-cfg':
